@@ -18,8 +18,8 @@ import sys
 from harness import framework, tlc, c05, c17
 from harness import dec_common as D
 
-QUICK_FILL = ["zeros", "ones", "random+p"]
-THOROUGH_FILL = ["zeros", "ones"] + ["boundary"] * 4 + ["random"] * 8 + ["random+p"] * 4 + ["boundary+p"] * 2
+QUICK_FILL = ["zeros", "ones", "random+p", "pfxsib"]
+THOROUGH_FILL = ["zeros", "ones", "pfxsib", "pfxsib"] + ["boundary"] * 4 + ["random"] * 8 + ["random+p"] * 4 + ["boundary+p"] * 2
 
 
 def model_runs(ctx, quick):
